@@ -12,7 +12,11 @@ pub struct Ev {
     pub tid: usize,
     pub kind: u8, // 0 mutex, 1 read, 2 write
     pub mult: usize,
+    /// the acquisition is only *issued* at this point of the witness and never completes (a blocked request of a deadlock
+    /// configuration): the turn passes on at once, the next event waits until this request has had time to queue
+    pub attempt: bool,
 }
+static ATTEMPT_AT: Mutex<Option<Instant>> = Mutex::new(None);
 static SCHED: Mutex<Vec<Ev>> = Mutex::new(Vec::new());
 static STEP: AtomicUsize = AtomicUsize::new(0);
 pub static STUCK: AtomicBool = AtomicBool::new(false);
@@ -26,6 +30,7 @@ thread_local! {
 pub fn install(sched: Vec<Ev>) {
     *SCHED.lock().unwrap() = sched;
     STEP.store(0, SeqCst);
+    *ATTEMPT_AT.lock().unwrap() = None;
     STUCK.store(false, SeqCst);
     MISMATCH.store(0, SeqCst);
     lock_api::verif_sched::install(hook);
@@ -101,7 +106,21 @@ fn hook(_addr: usize, kind: u8) {
         }
         std::thread::sleep(Duration::from_micros(50));
     }
+    // an earlier blocked request must be queued at its lock before this one is issued
+    let at = *ATTEMPT_AT.lock().unwrap();
+    if let Some(t) = at {
+        let need = Duration::from_millis(60);
+        if t.elapsed() < need {
+            std::thread::sleep(need - t.elapsed());
+        }
+    }
     MYPOS.with(|m| m.set(gi + 1));
+    if ev.attempt {
+        *ATTEMPT_AT.lock().unwrap() = Some(Instant::now());
+        STEP.store(gi + 1, SeqCst);
+        TID.with(|t| t.set(usize::MAX)); // nothing further is expected of this thread
+        return;
+    }
     SKIP.with(|s| s.set(ev.mult.saturating_sub(1)));
     PENDING.with(|p| p.set(gi));
 }
